@@ -613,7 +613,8 @@ class EncodeCatRows(Filter[Iterable[Union[Any,Dense,Sparse]], Iterable[Union[Any
             yield from rows
         else:
             #cat_cols is list of numbers or list of lists
-            is_nums = isinstance(catkeys[0],int)
+            #top-level keys are ints (dense rows) or strings (sparse rows); a list marks a nested [key,[keys]] entry
+            is_nums = not isinstance(catkeys[0],list)
             for row in rows:
                 row = list(row) if isinstance(row,tuple) else copy(row)
 
